@@ -221,7 +221,7 @@ class Ctx(object):
                 self.failures[b] = {"explore": name, "case": jsonable(case), "detail": d,
                                     "shrunk": False}
 
-    def explore(self, name, strategy, n, shrink=True, check=None, shrink_examples=None):
+    def explore(self, name, strategy, n, shrink=True, check=None, shrink_examples=None, salt=0):
         """Drive *check* with Hypothesis over *strategy* for *n* examples.
 
         Pass 1 collects discrepancies by bucket without raising so that the
@@ -231,7 +231,7 @@ class Ctx(object):
         import hypothesis
         from hypothesis import given, settings, Phase, HealthCheck
         check = check or self.module.CHECKS[name]
-        hseed = (self.seed * 1000003 + self.shard * 1009 + zlib.crc32(name.encode())) % (2**63)
+        hseed = (self.seed * 1000003 + self.shard * 1009 + zlib.crc32(name.encode()) + 7919 * salt) % (2**63)
         first = {}
 
         def make(body, phases, count):
